@@ -218,3 +218,22 @@ struct CidTimestamp {
     /// Timestamp when cid needs to be retired
     timestamp: Instant,
 }
+
+#[cfg(feature = "quinn_rs_quinn_verif")]
+impl CidState {
+    /// (retire_timestamp as (sequence, timestamp), issued, active_seq sorted, prev_retire_seq, retire_seq)
+    pub(super) fn verif_state(&self) -> (Vec<(u64, Instant)>, u64, Vec<u64>, u64, u64) {
+        let mut active: Vec<u64> = self.active_seq.iter().copied().collect();
+        active.sort_unstable();
+        (
+            self.retire_timestamp
+                .iter()
+                .map(|x| (x.sequence, x.timestamp))
+                .collect(),
+            self.issued,
+            active,
+            self.prev_retire_seq,
+            self.retire_seq,
+        )
+    }
+}
